@@ -2,7 +2,7 @@
   Driver for the call model (C03).
     hist <retries> <seq0> <calls> <script>
       calls  : comma separated  <kind><token>   kind = n normal | x raises | s stream | o oneway | b batch |
-               B batch-oneway | g getattr | t setattr | f fetch            ("-" = none)
+               B batch-oneway | g getattr | t setattr | f fetch | m missing method | M missing oneway method            ("-" = none)
       script : comma separated  ok | lo | la | cu | rb | ra | st<a> | sh | sq<d> | du | in   ("-" = empty)
     → per call, joined by ";" :  <outcome> <execs of the token during the call> <F|I|L|D> <seq> <connects> <events consumed> <unread>
       outcome = ret:<kind>:<token> | none | fail:closed|timeout|protocol|intr | stuck | end     (stops after `end`)
@@ -16,11 +16,11 @@ def parseKind (c : Char) : Option Kind :=
   match c with
   | 'n' => some .normal | 'x' => some .raises | 's' => some .stream | 'o' => some .oneway
   | 'b' => some .batch | 'B' => some .batchOneway | 'g' => some .getattr | 't' => some .setattr
-  | 'f' => some .fetch | _ => none
+  | 'f' => some .fetch | 'm' => some .missing | 'M' => some .onewayMissing | _ => none
 
 def kindChar : Kind → String
   | .normal => "n" | .raises => "x" | .stream => "s" | .oneway => "o" | .batch => "b"
-  | .batchOneway => "B" | .getattr => "g" | .setattr => "t" | .fetch => "f"
+  | .batchOneway => "B" | .getattr => "g" | .setattr => "t" | .fetch => "f" | .missing => "m" | .onewayMissing => "M"
 
 def parseCall (s : String) : Option (Kind × Nat) :=
   match s.toList with
